@@ -10,7 +10,7 @@ EXPLANATION = (
     "no H worker observes a cancellation and H's request completes exactly (C04/C05 oracles on H)."
 )
 ASSUMPTIONS = ["bounds: 2-3 groups, <= 7 tasks; cancellation is never issued re-entrantly from the group's own iterator/call site"]
-BUDGET = {"quick": 150, "thorough": 2400}
+BUDGET = {"quick": 150, "thorough": 900}
 MON = ["C07", "C04", "C05"]
 
 
